@@ -202,17 +202,19 @@ PROPERTIES["C14"] = {
     "level": "model_checking",
     "level_text": "Bounded model checking of the break-handling units: skip_linebreak/skip_break/read_break consume LF, CR LF and lone CR as exactly one "
                   "break (one line, column 0, reported as a line feed) for every following text within the bound; an escaped line break in a double-quoted "
-                  "scalar consumes the backslash and exactly one break of any style; differential check of the whitespace units on 2-character texts whose "
-                  "line-feed POSITIONS are fixed per harness (11 shape/substitution/context combinations) and whose other characters are symbolic: the "
-                  "unit ends with the same outcome at the same line/column before the same character and with the same simple-key state for LF vs CR LF / CR.",
+                  "scalar consumes the backslash and exactly one break of any style; differential check of the whitespace units: texts LF LF in three contexts (quick) and 2-character texts with "
+                  "one line feed at a fixed position and the other character symbolic (thorough, 5 combinations): the unit ends with the same outcome at "
+                  "the same line/column before the same character and with the same simple-key state for LF vs CR LF / CR.",
     "level_note": "Scalar-scanning functions (break normalisation inside plain/quoted/block scalars) are outside the claim (not finishing under Kani); "
                   "whole-document statement follows only by composition (argued).",
     "harnesses": [H("c12_skip_linebreak", "parser.scanner", POS_FUNCS, SCAN_UNIT_HARNESSES["c12_skip_linebreak"]),
                   H("c12_skip_break_read_break", "parser.scanner", POS_FUNCS, SCAN_UNIT_HARNESSES["c12_skip_break_read_break"]),
                   ] + [H("c14_escaped_line_break_" + st, "parser.scanner", ["Scanner::consume_flow_scalar_non_whitespace_chars", "Scanner::skip_linebreak", "Scanner::skip_non_blank"], "backslash + " + st.upper() + " + one of {b, sp, quote, LF}, arbitrary start mark") for st in ["lf", "crlf", "cr"]]
-                 + [H("c14_" + k, "parser.scanner", POS_FUNCS, "text of 2 characters with line feeds at fixed positions (" + k + "), other characters symbolic over {sp, tab, '#', 'a', ':'}, LF -> " + ("CR LF" if "crlf" in k else "CR"))
-                    for k in ["next_token_lf_o_crlf_top", "next_token_lf_o_cr_block", "next_token_o_lf_crlf_block", "next_token_o_lf_cr_top", "next_token_lf_lf_crlf_top", "next_token_lf_lf_cr_flow",
-                              "yaml_ws_lf_o_crlf_top", "yaml_ws_lf_o_cr_top", "yaml_ws_o_lf_crlf_flow", "yaml_ws_o_lf_cr_top", "yaml_ws_lf_lf_cr_top"]],
+                 + [H("c14_" + k, "parser.scanner", POS_FUNCS, "text LF LF in context " + k.split("_")[-1] + ", LF -> " + ("CR LF" if "crlf" in k else "CR"))
+                    for k in ["next_token_lf_lf_crlf_top", "next_token_lf_lf_cr_flow", "next_token_lf_lf_cr_block", "yaml_ws_lf_lf_cr_top", "yaml_ws_lf_lf_crlf_flow"]]
+                 + [H("c14_" + k, "parser.scanner", POS_FUNCS, "text of 2 characters, one line feed at a fixed position (" + k + "), the other character symbolic over {sp, tab, '#', 'a', ':'}, LF -> " + ("CR LF" if "crlf" in k else "CR"),
+                      tiers=T, timeout={"thorough": 3400})
+                    for k in ["next_token_lf_o_crlf_top", "yaml_ws_lf_o_crlf_top", "yaml_ws_lf_o_cr_top", "yaml_ws_o_lf_crlf_flow", "yaml_ws_o_lf_cr_top"]],
     "assumptions": ["units are run from constructed contexts (top level / indent 2 / flow level 1)"],
     "outside": "break normalisation inside scalars (scan_flow_scalar, scan_plain_scalar, scan_block_scalar), directives, whole documents",
 }
@@ -314,7 +316,8 @@ PROPERTIES["C17"] = {
     "level_note": "The push interface (Parser::load, load_document, load_node recursion, per-document anchor clearing) is outside the claim: it did not finish "
                   "under Kani. Longer call histories follow by induction on the step (argued). " + LM_STUB,
     "prepare": ["gen_parser"],
-    "harnesses": [H("c17_peek_next_wrapper_states", "lm.parser", PEEK_FUNCS, "look-ahead cached or not x StreamEnd delivered or not x first call peek or next; next token a scalar", stubs=[LM_STUB, INJ]),
+    "harnesses": [H("c17_wrapper_" + w, "lm.parser", PEEK_FUNCS, "look-ahead state / call order " + w + "; span of the cached event symbolic, next token a scalar", stubs=[LM_STUB, INJ])
+                  for w in ["cached_peek_next", "cached_next", "fresh_peek_next", "fresh_next", "ended_peek_next", "ended_next"]] + [
                   ] + [H("c17_fuse_" + h, "lm.parser", PEEK_FUNCS, "token template [StreamEnd], call history " + h.replace("_", ", "), stubs=[LM_STUB, INJ])
                        for h in ["peek_next_next_peek", "next_next_peek_next", "peek_peek_next_next", "next_peek_next_peek"]],
     "assumptions": [LM_STUB, INJ],
